@@ -53,7 +53,7 @@ def one(args):
 def main():
     jobs = []
     if sys.argv[1] == '--rerun':
-        for d in sorted(glob.glob(os.path.join(ROOT, BDIR, '*-*'))):
+        for d in sorted([d for d in glob.glob(os.path.join(ROOT, BDIR, '*-*')) if os.path.isdir(d)]):
             jobs.append((d, os.path.basename(d)))
     else:
         src, area = sys.argv[1], sys.argv[2]
